@@ -55,7 +55,7 @@ func Base() (*spec.Spec, *spec.PathItem, *spec.Op) {
 
 type Kind struct {
 	Name  string
-	Leaf  bool // usable as parameter / header scalar
+	Leaf  bool                            // usable as parameter / header scalar
 	Build func(s *spec.Spec) *spec.Schema // may add helper components to s
 }
 
@@ -380,6 +380,26 @@ func HeaderCells() []Cell {
 						out = append(out, NewCell("resphdr", map[string]string{"kind": k.Name, "req": b01(req), "form": form, "status": status, "body": b01(body)}, s))
 					}
 				}
+			}
+		}
+	}
+	return out
+}
+
+// HeaderNameCells: response header names that are not in canonical MIME form (the server writes them
+// through http.Header, the client must find them again), required and optional, on 200 and default.
+func HeaderNameCells() []Cell {
+	var out []Cell
+	for _, name := range []string{"ETag", "x-rate-limit", "X-Request-ID", "WWW-Authenticate", "X-Canonical"} {
+		for _, req := range []bool{false, true} {
+			for _, status := range []string{"200", "default"} {
+				s, _, op := Base()
+				r := &spec.Response{Status: status, Desc: "r", Headers: []*spec.Header{{Name: name, Required: req, Schema: spec.T("string")}, {Name: "X-Count", Schema: spec.TF("integer", "int32")}}}
+				op.Responses = []*spec.Response{r}
+				if status != "default" {
+					op.Responses = append(op.Responses, &spec.Response{Status: "default", Desc: "d"})
+				}
+				out = append(out, NewCell("resphdrname", map[string]string{"name": name, "req": b01(req), "status": status}, s))
 			}
 		}
 	}
